@@ -2,15 +2,15 @@ SPECIFICATION Spec
 CONSTANTS
  Elems <- E3
  TAU = 2
- Dur = 1
- FailSet = {}
- MaxTime = 4
+ Dur = 3
+ FailSet = {1}
+ MaxTime = 5
  Waits <- NoWaits
  CancelOf <- NoCancel
  Foreign = FALSE
- KindOf <- K_acf
- LoadOf <- L_acf
- Shutdowns = FALSE
+ KindOf <- AllCalls
+ LoadOf <- NoLoad
+ Shutdowns = TRUE
  CancelAware = TRUE
  ClearInputs = TRUE
 INVARIANT Inv_C03
@@ -18,3 +18,5 @@ INVARIANT Inv_C07
 INVARIANT Inv_C08
 INVARIANT DeliveredAtHorizon
 INVARIANT NoWaitStuck
+INVARIANT ShutdownTerminates
+INVARIANT ShutdownCompletes
